@@ -961,6 +961,17 @@ class ExprMixin(CallMixin):
         if isinstance(op, (ast.In, ast.NotIn)):
             res = self.contains(r, l, text)
             return res if isinstance(op, ast.In) else not res
+        # subset / superset of sets whose elements are all known
+        def known_set(x):
+            if isinstance(x, Sym) and x.op == "set" and x.args and isinstance(x.args[0], tuple) and \
+                    not any(isinstance(y, Sym) and y.op in ("elemof", "star") for y in x.args[0]):
+                return {repr(self.resolve_alt(y)) for y in x.args[0]}
+            if isinstance(x, Const) and isinstance(x.v, (frozenset, set)):
+                return {repr(Const(y)) for y in x.v}
+            return None
+        ls, rs = known_set(l), known_set(r)
+        if ls is not None and rs is not None and not any("call(" in e or "prop(" in e for e in ls | rs):
+            return {ast.Lt: ls < rs, ast.LtE: ls <= rs, ast.Gt: ls > rs, ast.GtE: ls >= rs}[type(op)]
         # ordering
         if isinstance(l, Const) and isinstance(r, Const):
             try:
@@ -989,6 +1000,8 @@ class ExprMixin(CallMixin):
         return self.unknown_bool(f"cmp({text})")
 
     def equal(self, l: V, r: V, identity: bool, text: str) -> bool:
+        l = self.enum_member_of(l) or l
+        r = self.enum_member_of(r) or r
         # None tests
         for a, b in ((l, r), (r, l)):
             if isinstance(b, Const) and b.v is None:
@@ -1024,6 +1037,13 @@ class ExprMixin(CallMixin):
             return l.v == r.v
         if isinstance(l, RefV) and isinstance(r, RefV):
             return l.qual == r.qual
+        # enum members are singletons: the same member is the same object wherever (and by whichever evaluation) it was obtained
+        for a, b in ((l, r), (r, l)):
+            if isinstance(a, ObjV) and str(a.label).startswith("enum:"):
+                if isinstance(b, ObjV) and str(b.label).startswith("enum:"):
+                    return a.label == b.label and a.cls == b.cls
+                if isinstance(b, (Const, RefV, NewNode, NodeV, PyList, PyTuple, PyDict, Str)) and identity:
+                    return False
         # type(node) against a class
         for a, b in ((l, r), (r, l)):
             if isinstance(a, Sym) and a.op == "typeof" and isinstance(a.args[0], NodeV):
